@@ -4,7 +4,7 @@ import itertools
 ID = "C18"
 HARNESSES = [dict(name="upgrade", pkg="./pkg/upgrade/", test="TestVerifC18", timeout=900,
                   files=[("pkg/upgrade/zz_verif_c18_test.go", "harness/C18/zz_verif_c18_test.go")])]
-VARIANTS = ["repaired", "head1", "keeponly", "staleonly", "defective"]
+VARIANTS = ["repaired"]   # /repo HEAD has every repair; any old behaviour is an unexplained mismatch = VIOLATION
 MODEL_NEEDS_IMPL = False
 RULE = ("history cases: an installed tree of 5 artifact paths (absent / regular incl. empty, modes incl. setuid, setgid, "
         "sticky, 0 / symlink to a regular file outside the artifact dirs, to another artifact path, chains through "
@@ -411,34 +411,6 @@ def classify(case, impl, model):
                              % (k, fa.get("res"), a, b))
             return "G", "first difference at op #%d: impl=%r model=%r" % (k, a, b)
     return "G", "outputs differ in length: impl=%r model=%r" % (impl, model)
-
-
-RESUMABLE_NOT = ("none", "completed", "rolled_back", "started")
-
-
-def jphase(seg):
-    return fields(seg).get("j", "none").split(":")[0]
-
-
-def signature(case, impl, models):
-    """names the recorded defect that explains the first difference from the repaired model"""
-    if case.startswith("name"):
-        return None
-    si, sr, ops = segs(impl), segs(models["repaired"]), ops_of(case)
-    for k, (a, b) in enumerate(zip(si, sr)):
-        if a == b:
-            continue
-        # the defect may act at an earlier operation whose own line is still identical (the overwritten snapshot
-        # only shows when a later rollback uses it): look at every operation up to the first difference
-        for q in range(1, min(k, len(ops) - 1) + 1):
-            prev = jphase(sr[q - 1])
-            op = ops[q]
-            if op.startswith("rollback") and prev == "started" and fields(sr[q])["res"] == "rb:err":
-                return "rollback-accepts-journal-without-snapshot"
-            if op.startswith("apply") and " force=1 " in op and prev not in RESUMABLE_NOT:
-                return "forceretry-resnapshots-interrupted-upgrade"
-        return None
-    return None
 
 
 def shrink(case):
